@@ -20,13 +20,17 @@ pub enum Prior {
     OneComplete,
     CompleteThenInterrupted,
     TwoComplete,
+    /// A complete version, then a backup killed while writing its BANDHEAD, leaving the band
+    /// directory with an empty head file (the band exists but cannot be opened).
+    CompleteThenTornHead,
 }
 
-pub const PRIORS: [Prior; 4] = [
+pub const PRIORS: [Prior; 5] = [
     Prior::Empty,
     Prior::OneComplete,
     Prior::CompleteThenInterrupted,
     Prior::TwoComplete,
+    Prior::CompleteThenTornHead,
 ];
 
 pub struct Scenario {
@@ -76,7 +80,7 @@ impl Scenario {
 /// middle of the run and multi-block files all occur.
 pub fn build(seed: u64, case: u64, tag: &str) -> Scenario {
     let mut rng = Rng::for_case(seed, case, 3);
-    let prior = PRIORS[(case % 4) as usize];
+    let prior = PRIORS[(case % PRIORS.len() as u64) as usize];
     let opts = Opts {
         hunk: *rng.pick(&[2usize, 3, 5]),
         block: *rng.pick(&[16usize, 64, 200]),
@@ -107,6 +111,17 @@ pub fn build(seed: u64, case: u64, tag: &str) -> Scenario {
             let k = n / 2 + rng.below((n / 2).max(1) as u64) as usize;
             let r = w.interrupted_backup(opts, k.min(n.saturating_sub(1)), n, false);
             desc.push_str(&format!(" [prior interrupted at {}/{n}, header={}]", k, r.new_band.is_some()));
+            w.mutate(&mut rng, 3);
+        }
+        Prior::CompleteThenTornHead => {
+            let r = w.backup(opts);
+            assert!(r.backup.as_ref().unwrap().ok(), "prior backup failed");
+            w.mutate(&mut rng, 4);
+            let trace = w.measure_trace(opts);
+            let n = trace.len();
+            let k = trace.iter().find(|e| e.verb == V::Write && e.path.ends_with("BANDHEAD")).map(|e| e.idx).expect("BANDHEAD write in trace");
+            let r = w.interrupted_backup(opts, k, n, true);
+            desc.push_str(&format!(" [prior killed while writing its BANDHEAD (op {k}/{n}): empty head file, header={}]", r.new_band.is_some()));
             w.mutate(&mut rng, 3);
         }
         Prior::TwoComplete => {
